@@ -139,6 +139,38 @@ def select_rules(fn):
     return rules
 
 
+def cleanups_shape(fn):
+    """`_run_cleanups`: '.liveStackLifo' iff the body is - up to the names of locals and the operand order of `==` -
+        flag = False
+        while self.case._cleanups:
+            f, a, kw = self.case._cleanups.pop()
+            r = self._run_user(f, *a, **kw)
+            if r == self.exception_caught: flag = True
+        if flag: return self.exception_caught
+    i.e. pop from the LIVE stack until it is empty (so cleanups registered meanwhile run too, last in first out), each one
+    through _run_user, failure sticky.  Anything else: '.other'."""
+    body = [s for s in fn.body if not (isinstance(s, ast.Expr) and isinstance(s.value, ast.Constant))]
+    try:
+        init, loop, tail = body
+        flag = init.targets[0].id
+        assert isinstance(init.value, ast.Constant) and init.value.value is False
+        assert isinstance(loop, ast.While) and not loop.orelse and ast.unparse(loop.test) == 'self.case._cleanups'
+        take, call, test = loop.body
+        f, a, kw = [e.id for e in take.targets[0].elts]
+        assert ast.unparse(take.value) == 'self.case._cleanups.pop()'
+        r = call.targets[0].id
+        assert ast.unparse(call.value) == 'self._run_user(%s, *%s, **%s)' % (f, a, kw)
+        assert isinstance(test, ast.If) and not test.orelse and len(test.body) == 1
+        assert ast.unparse(test.test) in ('%s == self.exception_caught' % r, 'self.exception_caught == %s' % r,
+                                          '%s is self.exception_caught' % r, 'self.exception_caught is %s' % r)
+        assert ast.unparse(test.body[0]) == '%s = True' % flag
+        assert isinstance(tail, ast.If) and not tail.orelse and ast.unparse(tail.test) == flag
+        assert len(tail.body) == 1 and ast.unparse(tail.body[0]) == 'return self.exception_caught'
+        return '.liveStackLifo'
+    except (AssertionError, ValueError, AttributeError, IndexError, TypeError):
+        return '.other'
+
+
 def handler_for_ok(fn):
     """`_handler_for`: first (class, handler) of self.handlers with isinstance(e, class), else None"""
     body = [s for s in fn.body if not (isinstance(s, ast.Expr) and isinstance(s.value, ast.Constant))]
@@ -155,6 +187,7 @@ def generate(repo):
     core = block(fn.body)
     rules = select_rules(find(tree, 'RunTest', '_select_exception'))
     hf = handler_for_ok(find(tree, 'RunTest', '_handler_for'))
+    cl = cleanups_shape(find(tree, 'RunTest', '_run_cleanups'))
     return '''import TTV.Model.RunSkel
 /-! GENERATED by harness/pyskel.py from testtools/runtest.py on every run - do not edit.
 The control skeleton of `RunTest._run_core`, the rules of `RunTest._select_exception`, and whether `RunTest._handler_for` is
@@ -169,8 +202,11 @@ def selectRules : List SelRule := [%s]
 
 def handlerForIsFirstMatch : Bool := %s
 
+/-- the shape of `RunTest._run_cleanups` -/
+def cleanupsShape : CleanupsShape := %s
+
 end TTV.Generated.RunSkel
-''' % (core, ', '.join(rules), 'true' if hf else 'false')
+''' % (core, ', '.join(rules), 'true' if hf else 'false', cl)
 
 
 if __name__ == '__main__':
